@@ -447,12 +447,14 @@ def check_const_build(lname):
         bad2, n2 = None, 0
         for r in range(2, min(len(chosen), 4) + 1):
             for perm in _it.permutations(chosen, r):
-                for pattern in (0, 1):
+                for pattern in (0, 1, 2, 3):
                     n2 += 1
                     init = {}
                     want = 0
                     for j, (key, f) in enumerate(perm):
-                        v = (mask(f.width) if (j + pattern) % 2 == 0 else (0b0101 & mask(f.width)))
+                        # overlapping bits must differ between consecutive fields, or the order would not show
+                        v = [mask(f.width), 0, 0b0101 & mask(f.width), 0b1010 & mask(f.width)][(j + 2 * (pattern // 2) + pattern) % 4] if pattern >= 2 \
+                            else (mask(f.width) if (j + pattern) % 2 == 0 else 0)
                         sh_ = A.Shape.cast(f.shape)
                         init[key] = norm(v, sh_.width, sh_.signed)
                         m_ = mask(f.width) << f.offset
